@@ -4,8 +4,10 @@ import (
 	"fmt"
 	"reflect"
 
+	"github.com/freeconf/yang/fc"
 	"github.com/freeconf/yang/meta"
 	"github.com/freeconf/yang/node"
+	"github.com/freeconf/yang/val"
 )
 
 type mapAsContainer struct {
@@ -69,7 +71,10 @@ func (def *mapAsList) getByKey(r node.ListRequest) (reflect.Value, error) {
 	if !isKeyValid(r.Key) {
 		return empty, fmt.Errorf("no key specified for %s", r.Path.String())
 	}
-	keyVal := reflect.ValueOf(r.Key[0].Value())
+	keyVal, err := mapKeyOf(def.src, r.Key[0])
+	if err != nil {
+		return empty, err
+	}
 	found := def.src.MapIndex(keyVal)
 	if !found.IsValid() {
 		return empty, nil
@@ -81,7 +86,10 @@ func (def *mapAsList) deleteByKey(r node.ListRequest) error {
 	if !isKeyValid(r.Key) {
 		return fmt.Errorf("no key specified for %s", r.Path.String())
 	}
-	keyVal := reflect.ValueOf(r.Key[0].Value())
+	keyVal, err := mapKeyOf(def.src, r.Key[0])
+	if err != nil {
+		return err
+	}
 	def.src.SetMapIndex(keyVal, reflect.ValueOf(nil))
 	// the rows have changed
 	def.index = nil
@@ -109,9 +117,45 @@ func (def *mapAsList) newListItem(r node.ListRequest) (reflect.Value, error) {
 	if err != nil {
 		return empty, err
 	}
-	keyVal := reflect.ValueOf(r.Key[0].Value())
+	keyVal, err := mapKeyOf(def.src, r.Key[0])
+	if err != nil {
+		return empty, err
+	}
 	def.src.SetMapIndex(keyVal, itemVal)
 	// the rows have changed
 	def.index = nil
 	return itemVal, nil
+}
+
+// mapKeyOf gives the value that indexes a Go map kept as a list for the (single) key value of
+// an item. The map may be keyed by a narrower or wider number type than the library converts
+// to (map[int32]T for an int32 leaf, whose values are int); a key of a type Go cannot hash
+// (binary is a slice of bytes) indexes no map
+func mapKeyOf(m reflect.Value, key val.Value) (reflect.Value, error) {
+	k := reflect.ValueOf(key.Value())
+	want := m.Type().Key()
+	if want.Kind() != reflect.Interface && k.Type() != want {
+		if !isNumberKind(k.Kind()) || !isNumberKind(want.Kind()) {
+			return k, fmt.Errorf("%w. %s key cannot index %s", fc.BadRequestError, key.Format(), m.Type())
+		}
+		converted := k.Convert(want)
+		if converted.Convert(k.Type()).Interface() != k.Interface() {
+			return k, fmt.Errorf("%w. key %s does not fit the key of %s", fc.BadRequestError, key.String(), m.Type())
+		}
+		k = converted
+	}
+	if !k.Type().Comparable() {
+		return k, fmt.Errorf("%w. %s key cannot index a Go map", fc.BadRequestError, key.Format())
+	}
+	return k, nil
+}
+
+func isNumberKind(k reflect.Kind) bool {
+	switch k {
+	case reflect.Int, reflect.Int8, reflect.Int16, reflect.Int32, reflect.Int64,
+		reflect.Uint, reflect.Uint8, reflect.Uint16, reflect.Uint32, reflect.Uint64, reflect.Uintptr,
+		reflect.Float32, reflect.Float64:
+		return true
+	}
+	return false
 }
